@@ -7,6 +7,7 @@ Copy i uses two letters (p, q); the kinds of classes of a copy:
   X = p(p|q)*                          verified by brute force (no pack)
   D = p(p|q)+  (variant Y)   or  p(p|q)*  (variant E: the language of X under another name)
   bD = q D      C = X + bD             (variant F: bD = q X, no reverse rule needed)
+  variant S: C = (p|q)+ = X + swap(X): a union rule with the *same* child class twice, told apart by the child index only
 Root R = g + C1 + ... + Ck  (`g` a one-letter atom). Everything the oracle needs is generated directly from these
 definitions (`words`), independently of the library. The classes duck-type upword.PW for the shared helpers
 (`params`, `words`, `extra_parameters`)."""
@@ -56,6 +57,8 @@ def _words(name, n, sig):
     if kind == "bD":
         return [q + w for w in _words(("X" if v == "F" else "D") + k, n - 1, sig)] if n >= 1 else []
     if kind == "C":
+        if v == "S":
+            return ["".join(t) for t in product((p, q), repeat=n)] if n >= 1 else []
         return _words("X" + k, n, sig) + _words("bD" + k, n, sig)
     raise ValueError(name)
 
@@ -161,6 +164,33 @@ class GProd(_Table, CartesianProductStrategy):
         return (W(obj[:1]), W(obj[1:]))
 
 
+class GSym(_Table, DisjointUnionStrategy):
+    """C -> (X, X): the words starting with p as they are, those starting with q with the two letters exchanged"""
+
+    def decomposition_function(self, c):
+        if isinstance(c, GL) and c.name in self.table:
+            return (GL(self.table[c.name][0], c.sig),) * 2
+        return None
+
+    def formal_step(self):
+        return "by first letter, up to exchanging the letters"
+
+    @staticmethod
+    def _swap(c, w):
+        p, q = LETTERS[int(c.name[-1])]
+        return W(str(w).translate(str.maketrans(p + q, q + p)))
+
+    def forward_map(self, c, obj, children=None):
+        p, _ = LETTERS[int(c.name[-1])]
+        return (W(obj), None) if str(obj).startswith(p) else (None, self._swap(c, obj))
+
+    def backward_map(self, c, objs, children=None):
+        if objs[0] is not None:
+            yield W(objs[0])
+        else:
+            yield self._swap(c, objs[1])
+
+
 class GBrute(VerificationStrategy):
     """verifies the named kinds; brute-force terms; no pack"""
 
@@ -184,7 +214,9 @@ class GBrute(VerificationStrategy):
         yield from c.words(n)
 
     def random_sample_object_of_size(self, c, n, **parameters):
-        raise NotImplementedError
+        import upword
+
+        return upword._random.choice(sorted(c.words(n)))
 
     def get_genf(self, c, funcs=None):
         raise NotImplementedError
@@ -206,7 +238,11 @@ class GBrute(VerificationStrategy):
 
 def inner_pack(sig):
     union, prod = {}, {}
+    sym = {}
     for k, v in ((str(i), x) for i, x in enumerate(sig)):
+        if v == "S":
+            sym["C" + k] = ("X" + k,)
+            continue
         union["C" + k] = ("X" + k, "bD" + k)
         if v == "Y":
             union["X" + k] = ("D" + k, "Y" + k)
@@ -216,7 +252,7 @@ def inner_pack(sig):
             prod["bD" + k] = ("T" + k, "D" + k)
         else:
             prod["bD" + k] = ("T" + k, "X" + k)
-    return StrategyPack(initial_strats=[GUnion(union), GProd(prod)], inferral_strats=[], expansion_strats=[],
+    return StrategyPack(initial_strats=[GUnion(union), GProd(prod), GSym(sym)], inferral_strats=[], expansion_strats=[],
                         ver_strats=[AtomStrategy(), GBrute(["X"])], name="inner")
 
 
@@ -235,6 +271,15 @@ def build(cfg):
     from specrun import DBS
 
     sig = "".join(cfg["gram"])
+    if cfg.get("gram_flat"):  # the inner strategies applied directly: no class verified with a pack
+        inner = inner_pack(sig)
+        flat = StrategyPack(initial_strats=[GUnion({"R": ("G",) + tuple("C" + str(k) for k in range(len(sig)))})] + list(inner.initial_strats),
+                            inferral_strats=[], expansion_strats=[], ver_strats=[AtomStrategy(), GBrute(["X"])], name="flat")
+        if cfg["db"] == "RuleDBForest":
+            from comb_spec_searcher.rule_db import RuleDBForest
+
+            return GL("R", sig), flat, RuleDBForest(reverse=True)
+        return GL("R", sig), flat, DBS[cfg["db"]]()
     outer = StrategyPack(initial_strats=[GUnion({"R": ("G",) + tuple("C" + str(k) for k in range(len(sig)))})], inferral_strats=[],
                          expansion_strats=[], ver_strats=[AtomStrategy(), GPackVer(["C"])], name="outer")
     return GL("R", sig), outer, DBS[cfg["db"]]()
